@@ -224,3 +224,80 @@ Theorem C14_blocked_matrix_regions : forall (A : Type) (r0 : A) (nr nc : nat) (r
   match blk p q with Some m => ent m li lj | None => r0 end.
 Proof. exact block_dense_region. Qed.
 Print Assumptions C14_blocked_matrix_regions.
+
+(* ---- blocked operators (BlockedOperatorBase and its Sum / Scaled / Product classes), over the descriptions regenerated
+   from blocked_operator.py (BBD, blocked_classes).  Here a space id stands for a LIST of spaces (tuple equality), [dim] for
+   the total dof count and [invmass r d] for the block-diagonal operator of the inverse mass matrices between the spaces of
+   list r and list d; which lists strong_form takes them from is part of the regenerated [bd_strong BBD]. ---- *)
+From BV Require Algebra.BlockedProofs.
+
+Theorem C14_blocked_denotation : forall (A : Type) (r0 r1 : A) (radd rmul : A -> A -> A) (ropp rinv : A -> A)
+    (dim : nat -> nat) (invmass mass : nat -> nat -> M A) (atoms : nat -> nat * nat * nat * M A),
+  (forall i : nat, rows (snd (atoms i)) = dim (pick3 Dual (fst (atoms i))) /\
+                   cols (snd (atoms i)) = dim (pick3 Dom (fst (atoms i)))) ->
+  (forall r d : nat, rows (invmass r d) = dim r /\ cols (invmass r d) = dim d) ->
+  forall (e : uexp A) (t : nat * nat * nat), type_of A atoms e = Some t ->
+  exists m : M A,
+    uweak A r0 r1 radd rmul ropp rinv invmass mass atoms (bd_strong BBD) BBD blocked_classes e = Ok (VM m) /\
+    meq A m (den A r0 r1 radd rmul ropp invmass atoms e) /\
+    uspaces A r0 r1 radd rmul ropp rinv invmass mass atoms (bd_strong BBD) BBD blocked_classes e = Ok t /\
+    BlockedProofs.dims_ok A dim t m.
+Proof. exact BlockedProofs.denotation. Qed.
+Print Assumptions C14_blocked_denotation.
+
+Theorem C14_blocked_typing_sound_complete : forall (A : Type) (r0 r1 : A) (radd rmul : A -> A -> A) (ropp rinv : A -> A)
+    (dim : nat -> nat) (invmass mass : nat -> nat -> M A) (atoms : nat -> nat * nat * nat * M A),
+  (forall i : nat, rows (snd (atoms i)) = dim (pick3 Dual (fst (atoms i))) /\
+                   cols (snd (atoms i)) = dim (pick3 Dom (fst (atoms i)))) ->
+  (forall r d : nat, rows (invmass r d) = dim r /\ cols (invmass r d) = dim d) ->
+  forall e : uexp A,
+  (type_of A atoms e = None <->
+   uweak A r0 r1 radd rmul ropp rinv invmass mass atoms (bd_strong BBD) BBD blocked_classes e = Err ValueError) /\
+  (type_of A atoms e <> None <->
+   exists m : M A,
+     uweak A r0 r1 radd rmul ropp rinv invmass mass atoms (bd_strong BBD) BBD blocked_classes e = Ok (VM m)).
+Proof. exact BlockedProofs.typing_sound_complete. Qed.
+Print Assumptions C14_blocked_typing_sound_complete.
+
+(* blocked strong form = (block-diagonal inverse mass operator between the RANGE and DUAL_TO_RANGE lists) * weak form;
+   with C14_blocked_denotation: blocked product = weak(A) * strong(B) *)
+Theorem C14_blocked_strong_form : forall (A : Type) (r0 r1 : A) (radd rmul : A -> A -> A) (ropp rinv : A -> A)
+    (dim : nat -> nat) (invmass mass : nat -> nat -> M A) (atoms : nat -> nat * nat * nat * M A),
+  (forall i : nat, rows (snd (atoms i)) = dim (pick3 Dual (fst (atoms i))) /\
+                   cols (snd (atoms i)) = dim (pick3 Dom (fst (atoms i)))) ->
+  (forall r d : nat, rows (invmass r d) = dim r /\ cols (invmass r d) = dim d) ->
+  forall (e : uexp A) (d q u : nat), type_of A atoms e = Some (d, q, u) ->
+  exists m : M A,
+    bind (elab A r0 r1 ropp rinv BBD blocked_classes e)
+         (strong A r0 r1 radd rmul ropp rinv invmass mass atoms (bd_strong BBD)) = Ok (VM m) /\
+    meq A m (mmul A r0 radd rmul (invmass q u) (den A r0 r1 radd rmul ropp invmass atoms e)).
+Proof. exact BlockedProofs.strong_form. Qed.
+Print Assumptions C14_blocked_strong_form.
+
+(* B * [f, g, ...] (packed coefficients c): result labelled with the range / dual_to_range lists, projections W c *)
+Theorem C14_blocked_apply : forall (A : Type) (r0 r1 : A) (radd rmul : A -> A -> A) (ropp rinv : A -> A)
+    (dim : nat -> nat) (invmass mass : nat -> nat -> M A) (atoms : nat -> nat * nat * nat * M A),
+  (forall i : nat, rows (snd (atoms i)) = dim (pick3 Dual (fst (atoms i))) /\
+                   cols (snd (atoms i)) = dim (pick3 Dom (fst (atoms i)))) ->
+  (forall r d : nat, rows (invmass r d) = dim r /\ cols (invmass r d) = dim d) ->
+  forall (e : uexp A) (d q u : nat) (f : gfun A), type_of A atoms e = Some (d, q, u) ->
+  exists p : M A,
+    bind (elab A r0 r1 ropp rinv BBD blocked_classes e)
+         (fun o : bop A => apply_op A r0 r1 radd rmul ropp rinv invmass mass atoms (bd_strong BBD) BBD o f) =
+    Ok {| g_space := q; g_dual := u; g_rep := DualRep p |} /\
+    (rows (coefficients A r0 radd rmul invmass f) = dim d ->
+     meq A p (mmul A r0 radd rmul (den A r0 r1 radd rmul ropp invmass atoms e) (coefficients A r0 radd rmul invmass f))).
+Proof. exact BlockedProofs.apply_function. Qed.
+Print Assumptions C14_blocked_apply.
+
+(* a block-diagonal operator acts row block by row block: row block p of blockdiag(D) * x is D_p times row block p of x
+   (so block (p, j) of the blocked strong form is M(range_p, dual_p)^-1 * W_pj) *)
+Theorem C14_block_diagonal_rows : forall (A : Type) (r0 r1 : A) (radd rmul rsub : A -> A -> A) (ropp : A -> A),
+  ring_theory r0 r1 radd rmul rsub ropp eq ->
+  forall (nr nc : nat) (rd cd : nat -> nat) (blk : nat -> nat -> option (M A)) (D : nat -> M A) (x : M A) (p li c : nat),
+  (forall a b, blk a b = if Nat.eqb a b then Some (D a) else None) ->
+  (p < nr)%nat -> (p < nc)%nat -> (li < rd p)%nat -> (c < cols x)%nat ->
+  ent (mmul A r0 radd rmul (block_dense A r0 nr nc rd cd blk) x) (off rd p + li) c =
+  sumn A r0 radd (cd p) (fun l => rmul (ent (D p) li l) (ent x (off cd p + l)%nat c)).
+Proof. exact block_diagonal_rows. Qed.
+Print Assumptions C14_block_diagonal_rows.
